@@ -5,3 +5,6 @@ import GitBugModel.Model.Ids
 import GitBugModel.Props.C13
 import GitBugModel.Model.Bug
 import GitBugModel.Props.C10
+import GitBugModel.Model.Dag
+import GitBugModel.Lemmas.PackSort
+import GitBugModel.Props.C03
